@@ -120,6 +120,13 @@ func (r *Reader) Read(buf []byte) (n int, err error) {
 
 	if len(r.line) == 0 && r.err == nil && (r.MaxRows == 0 || r.numRows < r.MaxRows) {
 		r.decodeScanLine()
+		if r.srcErr != nil && r.srcErr != io.EOF {
+			// The source failed while this line was decoded: part of it
+			// may stem from made-up zero bits, it must not be handed out
+			// as data.
+			r.line = r.line[:0]
+			r.err = r.srcErr
+		}
 	}
 
 	if len(r.line) > 0 {
